@@ -80,6 +80,15 @@ def shard_fn(shard, nshards, seed, tier, exe, ninputs, npairs):
         flags = rng.choice([0, 0, 1, 0x10, 3])
         depth = rng.choice([0, 0, 0, 2, 5, 40])
         add("reset", ["R %d %d x%s x%s" % (flags, depth, ",".join(c.hex() for c in chunks), y.hex())], (chunks, y))
+    # a tokener that has held a very long token (its scratch buffer grew beyond 64 KiB) and is then reused for another document with a long token
+    for j in range(3):
+        la, ly = rng.choice([65530, 65536, 70000, 200000]), rng.choice([4095, 4096, 5000, 40000, 70000])
+        a = rng.choice([b'"%s"', b'["%s"]', b'{"%s":1}', b'"%s', b'[%s]']) % (bytes([rng.choice(b"abc1")]) * la)
+        y = rng.choice([b'["%s"]', b'{"%s":[]}', b"[%s]"]) % (bytes([rng.choice(b"xyz7")]) * ly)
+        cuts = [0, len(a)] if rng.random() < 0.5 else [0, la // 2, len(a)]
+        chunks = [a[cuts[i]:cuts[i + 1]] for i in range(len(cuts) - 1)]
+        add("reset", ["R %d 0 x%s x%s" % (rng.choice([0, 1]), ",".join(c.hex() for c in chunks), y.hex())], ([c[:30] for c in chunks], y[:30]))
+        sh.count("reset_pairs.after_token_beyond_64KiB")
     # very deep nesting / very long tokens (few, large)
     big = []
     if shard < 8:
@@ -114,7 +123,7 @@ def shard_fn(shard, nshards, seed, tier, exe, ninputs, npairs):
                 raise core.Inconclusive("bad driver line: " + ln[:200])
             f = kv(ln)
             sh.evaluations += max(1, f.get("calls", 0))
-            rep = {"driver": "splitdrv", "variant": "asan", "script": [cmd[:100000]], "desc": repr(desc)[:500]}
+            rep = {"driver": "splitdrv", "variant": "asan", "script": [cmd[:2000000]], "desc": repr(desc)[:500]}
             if f.get("live", 0) != 0:
                 sh.violation("C04/leak-after-free", "blocks still allocated after json_tokener_free + put: " + ln[-100:], rep)
             if f.get("tri", 0):
